@@ -460,3 +460,148 @@ Proof.
   - apply process_slots_correct; assumption.
   - apply spec_process_slots_closed; assumption.
 Qed.
+
+(* ---------- envelopes ---------- *)
+Section Blocks.
+  Variable H : bytes -> bytes.
+  Variable Body : Type.
+  Variable body_root : fork -> Body -> bytes.
+  Variable bls_verify : bytes -> bytes -> bytes -> bool.
+
+  Notation signed_block := (signed_block Body).
+  Notation envelope := (envelope Body).
+
+  (* signed block -> envelope -> signed block is the identity, for every fork that has a block type,
+     and the envelope carries the block's root, signature, body and body root unchanged *)
+  Theorem envelope_roundtrip (b : signed_block) digest :
+    sb_fork Body b <> Fulu ->
+    let e := envelope_of H Body body_root b digest in
+    envelope_to_signed_block Body e = Ok b /\
+    env_root Body e = block_root H Body body_root b /\
+    env_sig Body e = sb_sig Body b /\
+    env_body Body e = sb_body Body b /\ env_body_fork Body e = sb_fork Body b /\
+    env_body_root Body e = body_root (sb_fork Body b) (sb_body Body b) /\
+    env_digest Body e = digest /\
+    env_slot Body e = sb_slot Body b /\ env_proposer Body e = sb_proposer Body b /\
+    env_parent Body e = sb_parent Body b /\ env_state Body e = sb_state Body b.
+  Proof.
+    intros Hf. destruct b as [f sl pr pa st bo sg]. cbn in Hf.
+    destruct f; try congruence; cbn; repeat split; reflexivity.
+  Qed.
+
+  (* an envelope is well formed when its cached roots are the roots of what it carries *)
+  Definition envelope_wf (e : envelope) : Prop :=
+    env_body_root Body e = body_root (env_body_fork Body e) (env_body Body e) /\
+    env_root Body e = header_root H (env_slot Body e) (env_proposer Body e) (env_parent Body e)
+                        (env_state Body e) (env_body_root Body e).
+  (* envelope -> signed block -> envelope is the identity on well-formed envelopes *)
+  Theorem envelope_roundtrip_back (e : envelope) b :
+    envelope_wf e -> envelope_to_signed_block Body e = Ok b ->
+    envelope_of H Body body_root b (env_digest Body e) = e /\ block_root H Body body_root b = env_root Body e.
+  Proof.
+    intros [Hb Hr] Hx. destruct e as [dg sl pr pa st br f bo rt sg]. cbn in *.
+    unfold envelope_to_signed_block in Hx. cbn in Hx.
+    destruct f; inversion Hx; subst; unfold envelope_of, block_root; cbn; split; reflexivity.
+  Qed.
+  Lemma envelope_of_wf (b : signed_block) digest : envelope_wf (envelope_of H Body body_root b digest).
+  Proof. destruct b. unfold envelope_wf, envelope_of. cbn. split; reflexivity. Qed.
+
+  (* the message the envelope check presents to BLS for a block at `slot` *)
+  Definition proposer_message (c : fork_cfg) (gvr root : bytes) (slot : N) : bytes :=
+    signing_root H root (compute_domain H DOMAIN_BEACON_PROPOSER (compute_fork_version c (slot_to_epoch c slot)) gvr).
+
+  (* VerifySignature accepts exactly when: the proposer index is the expected one, the envelope's digest is
+     the digest of the version compute_fork_version gives for the block's slot, and BLS accepts the
+     signature over the signing root under THAT version's proposer domain. *)
+  Theorem envelope_sig_iff c (e : envelope) gvr proposer pk :
+    schedule_sorted c ->
+    verify_signature H Body bls_verify c e gvr proposer pk = true <->
+    (env_proposer Body e = proposer /\
+     env_digest Body e = fork_digest H (compute_fork_version c (slot_to_epoch c (env_slot Body e))) gvr /\
+     bls_verify pk (proposer_message c gvr (env_root Body e) (env_slot Body e)) (env_sig Body e) = true).
+  Proof.
+    intros Hs. unfold verify_signature, verify_signature_versioned, proposer_message, fork_digest.
+    rewrite (fork_version_correct c _ Hs).
+    destruct (N.eqb_spec (env_proposer Body e) proposer) as [Hp|Hp]; cbn [negb].
+    - destruct (bytes_eqb _ (env_digest Body e)) eqn:Hd; cbn [negb].
+      + apply bytes_eqb_eq in Hd. split; [intros Hv; repeat split; [exact Hp | symmetry; exact Hd | exact Hv] | intros [_ [_ Hv]]; exact Hv].
+      + split; [discriminate|]. intros [_ [Hd' _]]. rewrite Hd' in Hd. rewrite bytes_eqb_refl in Hd. discriminate.
+    - split; [discriminate|]. intros [Hp' _]. contradiction.
+  Qed.
+
+  (* a signature made under another version w is presented to BLS together with the message of the slot's
+     version v, never with the message it was made for (that the two messages differ when v <> w is
+     collision resistance of H, which is NOT assumed here: unforgeability is outside) *)
+  Corollary envelope_sig_message c (b : signed_block) gvr pk :
+    schedule_sorted c -> sb_fork Body b <> Fulu ->
+    let v := compute_fork_version c (slot_to_epoch c (sb_slot Body b)) in
+    verify_signature H Body bls_verify c (envelope_of H Body body_root b (fork_digest H v gvr)) gvr (sb_proposer Body b) pk
+    = bls_verify pk (signing_root H (block_root H Body body_root b) (compute_domain H DOMAIN_BEACON_PROPOSER v gvr)) (sb_sig Body b).
+  Proof.
+    intros Hs Hf v. destruct b as [f sl pr pa st bo sg].
+    unfold verify_signature, verify_signature_versioned, envelope_of, block_root. cbn.
+    rewrite (fork_version_correct c _ Hs). fold v.
+    rewrite N.eqb_refl. cbn [negb]. unfold fork_digest. rewrite bytes_eqb_refl. cbn [negb]. reflexivity.
+  Qed.
+
+  (* pinned snapshot: a capella block is checked against the deneb version *)
+  Lemma verify_signature_orig_version c (e : envelope) gvr proposer pk :
+    verify_signature_orig H Body bls_verify c e gvr proposer pk
+    = verify_signature_versioned H Body bls_verify e (fork_version_orig c (env_slot Body e)) gvr proposer pk.
+  Proof. reflexivity. Qed.
+End Blocks.
+
+(* ---------- the combined statement ---------- *)
+Section Combined.
+  Variable H : bytes -> bytes.
+
+  Theorem fork_lookups_agree c gvr :
+    schedule_sorted c -> 0 < c_spe c ->
+    forall slot,
+      let epoch := slot_to_epoch c slot in
+      let f := spec_fork_at_epoch c epoch in
+      (* the configuration's version is the specification's *)
+      fork_version c slot = compute_fork_version c epoch /\
+      fork_version c slot = version_of c f /\
+      (* the decoder's digest is the digest of that version *)
+      decoder_fork_digest (new_decoder H c gvr) epoch = fork_digest H (fork_version c slot) gvr /\
+      (* the block type: over versions (distinct versions suffice), and over digests when the six digests of
+         this configuration do not collide; a Fulu epoch has no block type in the repository *)
+      (versions_distinct_b c = true -> epoch < e_fulu c -> allocator_by_version c (fork_version c slot) = Ok f) /\
+      (digests_distinct_b H c gvr = true -> epoch < e_fulu c ->
+         block_allocator (new_decoder H c gvr) (decoder_fork_digest (new_decoder H c gvr) epoch) = Ok f) /\
+      (* the state a chain is in after ProcessSlots from a phase0 genesis to this slot (forks phase0..deneb) *)
+      (1 <= e_altair c -> 0 < slot -> epoch < e_electra c ->
+         exists st, process_slots c (genesis_state c) slot = Ok st /\
+                    spec_process_slots c (genesis_state c) slot = Some st /\
+                    st_type st = f /\ st_slot st = slot /\
+                    fr_cur (st_fork st) = fork_version c slot /\
+                    st_fork st = spec_fork_record c epoch /\
+                    (f <> Phase0 -> fr_prev (st_fork st) = version_of c (pred_fork f) /\ fr_epoch (st_fork st) = epoch_of c f) /\
+                    (f = Phase0 -> st_fork st = mkFork (v_genesis c) (v_genesis c) 0)).
+  Proof.
+    intros Hs Hp slot epoch f.
+    assert (Hv : fork_version c slot = compute_fork_version c epoch) by (apply fork_version_correct; exact Hs).
+    assert (Hn : fork_version c slot = version_of c f).
+    { rewrite Hv. apply compute_fork_version_names. }
+    assert (Hnf : epoch < e_fulu c -> f <> Fulu).
+    { intros Hlt. apply (fork_never_activated c Fulu epoch Hs). exact Hlt. }
+    split; [exact Hv|]. split; [exact Hn|].
+    split; [apply decoder_digest_correct|].
+    split; [intros Hd Hlt; rewrite Hn; apply allocator_by_version_complete; auto|].
+    split.
+    { intros Hd Hlt. unfold epoch. rewrite decoder_digest_correct, Hn.
+      apply block_allocator_complete; auto. }
+    intros Ha Hpos Hel.
+    exists (mkSt f (spec_fork_record c epoch) slot).
+    split; [apply process_slots_correct; assumption|].
+    split; [apply spec_process_slots_closed; assumption|].
+    cbn [st_type st_slot st_fork].
+    split; [reflexivity|]. split; [reflexivity|].
+    unfold spec_fork_record. fold f.
+    split; [rewrite Hn; destruct f; reflexivity|].
+    split; [reflexivity|].
+    split; [intros Hne; destruct f; try congruence; split; reflexivity|].
+    intros ->. reflexivity.
+  Qed.
+End Combined.
